@@ -827,7 +827,7 @@ def boundary_cases(ctx):
 
 
 def _hyp_shard(sub, i):
-    n = sub.pick(0, 8000)
+    n = sub.pick(0, 2500)
     hyp_run(sub, rt_cases(), run_case, n, label=f"rt-shard{i}")
     if not sub.has_violation():
         hyp_run(sub, stream_cases(), run_case, n, label=f"stream-shard{i}")
